@@ -477,13 +477,28 @@ def rangeItems (v : Val) : Option (List Val) :=
   | .strs l => some (l.map Val.strOf)
   | _ => none
 
-/-- the successive states of a scanner: one per `Scan()` that returns true -/
-def scanStates (txt : Bool) : List (List Cell) → List Val
+/-- every line with the lines after it -/
+def scanPairs : List (List Cell) → List (List Cell × List (List Cell))
   | [] => []
-  | l :: rest => .scanner txt rest l :: scanStates txt rest
+  | l :: rest => (l, rest) :: scanPairs rest
+
+/-- the successive states of a scanner: one per `Scan()` that returns true -/
+def scanStates (txt : Bool) (ls : List (List Cell)) : List Val :=
+  (scanPairs ls).map fun p => .scanner txt p.2 p.1
 
 def bindLoopVar (ρ : Env) (x : String) (v : Val) : Env := if x = "_" then ρ else ρ.set x v
 
+/-- how an iteration binds its item: `for k, v := range …` / `for x.Scan() { … }` (`x` = the scanner after this `Scan`) -/
+inductive Bind where
+  | range (k v : String)
+  | scan (x : String)
+
+def bindIt (b : Bind) (ρ : Env) (it : Val) (i : Nat) : Env :=
+  match b with
+  | .range k v => bindLoopVar (bindLoopVar ρ k (.int (Int.ofNat i))) v it
+  | .scan x => ρ.set x it
+
+mutual
 def exec (R : Ro) : St → M → Res
   | .skip, m => .ok (m, .norm)
   | .seq a b, m =>
@@ -530,7 +545,7 @@ def exec (R : Ro) : St → M → Res
         | some ("meth:Scan", .var x) =>
           (match m.ρ.get x with
            | some (.scanner txt rest _) =>
-             (match loopL (fun m' it _ => leave m.ρ.length (exec R body { m' with ρ := m'.ρ.set x it })) (scanStates txt rest) 0 m with
+             (match loopS R body m.ρ.length (.scan x) (scanStates txt rest) 0 m with
               | .ok (m', .norm) => .ok ({ m' with ρ := m'.ρ.set x (.scanner txt [] []) }, .norm)
               | r => r)
            | _ => .error (.stuck "Scan of a non-scanner"))
@@ -541,7 +556,7 @@ def exec (R : Ro) : St → M → Res
      | .ok cv =>
        (match rangeItems cv with
         | some items =>
-          loopL (fun m' it i => leave m.ρ.length (exec R body { m' with ρ := bindLoopVar (bindLoopVar m'.ρ k (.int (Int.ofNat i))) v it })) items 0 m
+          loopS R body m.ρ.length (.range k v) items 0 m
         | none => .error (.stuck "range"))
      | .error e => .error e)
   | .ret0, m => .ok (m, .ret .nil)
@@ -563,6 +578,22 @@ def exec (R : Ro) : St → M → Res
   | .cont, m => .ok (m, .cont)
   | .panicS _, _ => .error (.panic .explicit)
   | .unknown s, _ => .error (.stuck ("unknown statement " ++ s))
+termination_by st _ => (sizeOf st, 0)
+decreasing_by all_goals simp_wf; all_goals (first | (apply Prod.Lex.left; simp_wf; omega) | (apply Prod.Lex.left; omega))
+
+/-- Run `body` over the items of a loop (the variables of the body go out of scope after every iteration);
+`break` leaves the loop, `continue` goes on, `return` and errors propagate. -/
+def loopS (R : Ro) (body : St) (n : Nat) (b : Bind) : List Val → Nat → M → Res
+  | [], _, m => .ok (m, .norm)
+  | it :: rest, i, m =>
+    match leave n (exec R body { m with ρ := bindIt b m.ρ it i }) with
+    | .ok (m', .norm) => loopS R body n b rest (i + 1) m'
+    | .ok (m', .cont) => loopS R body n b rest (i + 1) m'
+    | .ok (m', .brk) => .ok (m', .norm)
+    | r => r
+termination_by items _ _ => (sizeOf body, items.length + 1)
+decreasing_by all_goals simp_wf; all_goals (first | (apply Prod.Lex.right; omega) | (apply Prod.Lex.right; simp))
+end
 
 /-- Bind the parameters. -/
 def mkEnv : List String → List Val → Env
